@@ -15,7 +15,6 @@ import (
 	"fmt"
 	"os"
 	"path/filepath"
-	"runtime"
 	"runtime/debug"
 	"runtime/pprof"
 	"sort"
@@ -87,7 +86,8 @@ func tierParams(thorough bool) params {
 			// <=2 lines over a1 a2 soa soa2 n1 n2 (duplicates, two values under a key, a changed SOA, subnet
 			// churn), plus the one-line files of dot (composite, serial-dependent) and aL (located)
 			fams:      []family{{[]int{0, 1, 2, 4, 5, 6}, 2}, {[]int{3, 7}, 1}},
-			maxOrders: 6, strictMax: 2, allFaults: false, bfsDepth: 2, walkDepth: 2, walkLines: []int{0, 2, 5, 6},
+			maxOrders: 6, strictMax: 1, allFaults: false, bfsDepth: 2, walkDepth: 2, walkLines: []int{0, 5},
+			skewMaxLines: 1,
 		}
 	}
 	return params{
@@ -95,6 +95,7 @@ func tierParams(thorough bool) params {
 		// and all three nested subnets together
 		fams:      []family{{firstLines(6), 3}, {firstLines(len(alphabet)), 2}, {[]int{5, 6, 8}, 3}},
 		maxOrders: 24, strictMax: 3, allFaults: true, bfsDepth: 3, walkDepth: 3, walkLines: []int{0, 1, 2, 3, 5, 6},
+		skewMaxLines: 1 << 30,
 	}
 }
 
@@ -151,11 +152,6 @@ func main() {
 		pprof.StartCPUProfile(fh)
 		defer pprof.StopCPUProfile()
 	}
-	// every ApplyDiff allocates ~10 MB of batch slices (rdb.DefaultBatchSize): keep the heap mapped instead of
-	// handing it back to the OS and page-faulting it in again for every case
-	ballast := make([]byte, 512<<20) // never touched: raises the heap goal so that freed spans stay mapped and are reused
-	defer runtime.KeepAlive(ballast)
-	debug.SetGCPercent(100) // every ApplyDiff allocates ~10 MB of batch slices; collect less often
 	w.p = tierParams(r.Thorough())
 	fams := w.p.fams
 	if v := os.Getenv("VERIF_C08_FAM"); v != "" { // development aid only
